@@ -588,6 +588,13 @@ def run(tier: str, seed: int) -> int:
                              n_passages=(3, 7))
             g = G.Gen(r, prof)
             src = g.source()
+            if r.random() < 0.3 and "\n\n:: " in src:
+                # stub passages: a header directly followed by the next header (no content, no choices), and a passage
+                # made of commands only - both defined, both referenced
+                k0 = src.index("\n\n:: ")
+                src = (src[:k0] + "\n+ [To stub] -> StubA\n+ [To quiet] -> StubB" + src[k0:].rstrip("\n") +
+                       "\n\n:: StubA\n:: StubB\n~ n = n + 1\n:: StubC\n-> StubA\n")
+                stats["gen"]["stub-passages"] = stats["gen"].get("stub-passages", 0) + 1
             try:
                 story = R.compile_story(src)
             except Exception:  # noqa
